@@ -25,12 +25,13 @@ _MKEY_CACHE = {}
 
 
 class Poly:
-    __slots__ = ("t", "_k", "_h")
+    __slots__ = ("t", "_k", "_h", "_r")
 
     def __init__(self, t=None):
         self.t = {k: v for k, v in (t or {}).items() if v != 0}
         self._k = None
         self._h = None
+        self._r = None
 
     @staticmethod
     def const(n):
@@ -98,6 +99,11 @@ class Poly:
         return out
 
     def __repr__(self):
+        if self._r is None:
+            self._r = self._repr()   # a Poly is never mutated after construction
+        return self._r
+
+    def _repr(self):
         if not self.t:
             return "0"
         parts = []
